@@ -48,11 +48,36 @@ def arrays_in(res):
     return []
 
 
+def clone(a):
+    """a fresh array with the same values AND the same memory layout (column-major, every-other-element view, row-major)"""
+    if a.ndim >= 2 and a.flags.f_contiguous and not a.flags.c_contiguous:
+        return a.copy(order="F")
+    if a.ndim >= 1 and a.size and not a.flags.c_contiguous and a.strides[-1] == 2 * a.itemsize:
+        big = numpy.zeros(a.shape[:-1] + (2 * a.shape[-1],), a.dtype)
+        v = big[..., ::2]; v[...] = a
+        return v
+    return a.copy()
+
+
+def relayout(args, kwargs, how):
+    def conv(a):
+        if not isinstance(a, numpy.ndarray) or a.size == 0:
+            return a
+        if how == "column-major":
+            return numpy.asfortranarray(a) if a.ndim >= 2 else a
+        big = numpy.zeros(a.shape[:-1] + (2 * a.shape[-1],), a.dtype) if a.ndim >= 1 else None
+        if big is None:
+            return a
+        v = big[..., ::2]; v[...] = a
+        return v
+    return [conv(a) for a in args], {k: conv(v) for k, v in kwargs.items()}
+
+
 def observe(f, args, kwargs):
     """returns dict of observed effects for one recipe"""
     obs = {"writes": False, "alias": False, "rng": False, "unrepeatable": False, "error": None}
     def fresh():
-        return [a.copy() if isinstance(a, numpy.ndarray) else copy.deepcopy(a) for a in args], {k: (v.copy() if isinstance(v, numpy.ndarray) else copy.deepcopy(v)) for k, v in kwargs.items()}
+        return [clone(a) if isinstance(a, numpy.ndarray) else copy.deepcopy(a) for a in args], {k: (clone(v) if isinstance(v, numpy.ndarray) else copy.deepcopy(v)) for k, v in kwargs.items()}
     import contextlib, io
     with warnings.catch_warnings(), contextlib.redirect_stdout(io.StringIO()):
         warnings.simplefilter("ignore")
@@ -150,6 +175,19 @@ def property_checks(seed, deep):
             out.append(("global generator state changed: %s" % name, 1.0, 0.0))
         if obs["unrepeatable"]:
             out.append(("equal arguments, different results: %s" % name, 1.0, 0.0))
+        # the same call with the array arguments in another memory layout (column-major copies; every-other-element views): the
+        # layout is not part of the value, so nothing may be written, aliased or changed in the result
+        if any(isinstance(a, numpy.ndarray) for a in list(args) + list(kwargs.values())) and name not in KNOWN:
+            base = None
+            for how in ("column-major", "strided view"):
+                a_, k_ = relayout(args, kwargs, how)
+                o2 = observe(f, a_, k_)
+                if o2["writes"]:
+                    out.append(("argument modified (%s arguments): %s" % (how, name), 1.0, 0.0))
+                if o2["alias"]:
+                    out.append(("result shares memory with an argument (%s arguments): %s" % (how, name), 1.0, 0.0))
+                if o2["unrepeatable"]:
+                    out.append(("equal arguments, different results (%s arguments): %s" % (how, name), 1.0, 0.0))
     # batch clauses
     from aotools import fouriertransform as ftm, interpolation as itp
     from aotools.image_processing import centroiders as cen
